@@ -319,7 +319,7 @@ Proof.
   - cbn; lia.
   - cbn. constructor.
   - cbn. constructor.
-  - intros r. unfold cnt, pend. cbn. destruct (Nat.eq_dec q r); lia.
+  - intros r. unfold pend, cnt. cbn. destruct (Nat.eq_dec q r); lia.
   - reflexivity.
   - auto.
   - auto.
@@ -472,6 +472,7 @@ Proof.
     (destruct (c_tcp (cs x)) eqn:T; try (inversion H; subst; apply Good_refl, W)).
   - eapply tcp_connect_good; eauto.
   - eapply bind_busy_good; eauto.
+  - eapply bind_busy_good; eauto.
   - eapply pipe_connect_good; eauto.
   - eapply pipe_connect2_good; eauto.
 Qed.
@@ -604,7 +605,9 @@ Proof.
                                     (c_fed (cs x)) true true))).
       { unfold wf; cbn. repeat split; auto; try discriminate; try (apply W3, R). }
       constructor; auto; try (cbn; constructor); try lia.
-      intros q. unfold pend; cbn. rewrite R. reflexivity. }
+      - intros q. unfold pend; cbn. rewrite R. reflexivity.
+      - unfold pendn in *; cbn in *. rewrite R in *. lia.
+      - unfold pendn in *; cbn in *. rewrite R in *. lia. }
     eapply Good_trans; [exact G1|]. apply Good_event_closed, (g_wf _ _ _ _ _ G1).
 Qed.
 
